@@ -468,6 +468,70 @@ def mark_loops(body, marks, what=''):
 
 
 # ---------------------------------------------------------------- DEFER / SCOPED_LOCK lowering
+def lower_block_scoped(body, items, rettype='void', what=''):
+    """Mechanical lowering of a C++ scoped object declared INSIDE a nested block (typically a loop body):
+    items = [(decl_regex, ctor_text, dtor_text)].  `decl_regex` matches the declaration statement (groups usable in the
+    texts as \\1...).  The destructor text is inserted
+      - before every `break;` / `continue;` that lies in the rest of the enclosing block and is not inside a deeper loop
+        (break inside a deeper `switch` is also left alone),
+      - before every `return` in the rest of the block (`return E;` -> `{ rettype r__ = (E); dtor; return r__; }`),
+      - at the end of the enclosing block.
+    A `goto` in the rest of the block raises ExtractionError."""
+    for decl_re, ctor, dtor in items:
+        while True:
+            m = re.search(decl_re, body, re.S)
+            if not m:
+                break
+            ctor_t = m.expand(ctor)
+            dtor_t = m.expand(dtor)
+            # innermost enclosing block
+            depth = 0
+            ob = -1
+            i = m.start() - 1
+            while i >= 0:
+                c = body[i]
+                if c == '}':
+                    depth += 1
+                elif c == '{':
+                    if depth == 0:
+                        ob = i
+                        break
+                    depth -= 1
+                i -= 1
+            if ob < 0:
+                raise ExtractionError('%s: no enclosing block for scoped object /%s/' % (what, decl_re))
+            cb = find_matching(body, ob)
+            rest = body[m.end():cb]
+            if re.search(r'\bgoto\b', rest):
+                raise ExtractionError('%s: goto inside the scope of /%s/ is not supported by the lowering' % (what, decl_re))
+            inner = []
+            for sp in loop_spans(rest):
+                inner.append((sp['kw'], sp['body'][1] + 1, sp['kind']))
+            sw = []
+            for ms in re.finditer(r'\bswitch\s*\(', rest):
+                cp_ = find_matching(rest, rest.index('(', ms.start()))
+                ob_ = find_code_char(rest, '{', cp_)
+                sw.append((ms.start(), find_matching(rest, ob_) + 1))
+            edits = []
+            for mj in re.finditer(r'\b(break|continue)\s*;', rest):
+                p_ = mj.start()
+                if any(a <= p_ < b for a, b, _ in inner):
+                    continue
+                if mj.group(1) == 'break' and any(a <= p_ < b for a, b in sw):
+                    continue
+                edits.append((mj.start(), mj.end(), '{ %s %s; }' % (dtor_t, mj.group(1))))
+            for mr in re.finditer(r'\breturn\b\s*([^;]*);', rest):
+                e = mr.group(1).strip()
+                if e:
+                    edits.append((mr.start(), mr.end(), '{ %s r__ = (%s); %s return r__; }' % (rettype, e, dtor_t)))
+                else:
+                    edits.append((mr.start(), mr.end(), '{ %s return; }' % dtor_t))
+            for a, b, t in sorted(edits, reverse=True):
+                rest = rest[:a] + t + rest[b:]
+            body = body[:m.start()] + ctor_t + rest + ' ' + dtor_t + ' ' + body[cb:]
+    return body
+
+
 def lower_defers(body, rettype='int', scoped_lock=None, what=''):
     """Mechanical lowering of photon's DEFER(expr); (run expr when the enclosing scope exits) for DEFERs that
     appear at FUNCTION scope: every `return X;` becomes `{ ret_ = X; goto exit_; }` and the function ends with
